@@ -60,6 +60,15 @@ func chance(t *rapid.T, label string, pct int) bool {
 	return uniform(t, label, 100) < pct
 }
 
+// listLen draws a list length: usually within [lo, hi], occasionally (about one case in ten) much
+// larger, because nothing in the library bounds list sizes and a defect may sit behind a count threshold.
+func listLen(t *rapid.T, label string, lo, hi int) int {
+	if chance(t, label+"_big", 10) {
+		return pick(t, label+"_bign", []int{hi + 1, 2*hi + 1, 9, 12, 17, 24, 33})
+	}
+	return lo + uniform(t, label, hi-lo+1)
+}
+
 // intIn draws uniformly from [lo, hi] (small ranges only).
 func intIn(t *rapid.T, label string, lo, hi int) int {
 	return lo + uniform(t, label, hi-lo+1)
@@ -193,7 +202,7 @@ func genPatList(t *rapid.T) []Pat {
 	for i := range bases {
 		bases[i] = genTinyDomain(t, "basehost")
 	}
-	n := rapid.IntRange(1, 6).Draw(t, "npats")
+	n := listLen(t, "npats", 1, 6)
 	out := make([]Pat, n)
 	for i := range out {
 		out[i] = genPat(t, bases)
@@ -207,7 +216,12 @@ func genLongPatList(t *rapid.T) []Pat {
 	total := pick(t, "longlen", []int{253, 253, 252, 251, 250, 200, 128, 64})
 	base := genDomainOfLen(t, "long", total)
 	n := rapid.IntRange(1, 4).Draw(t, "npats")
-	out := make([]Pat, 0, n)
+	out := make([]Pat, 0, n+1)
+	if total >= 250 && chance(t, "allmax", 40) {
+		// every maximum at once: 64-byte scheme, longest host plus trailing dot, 5-digit port
+		out = append(out, Pat{Scheme: pick(t, "maxscheme", []string{strings.Repeat("s", 64), "a" + strings.Repeat("b", 62) + "c"}), Host: base + ".",
+			Port: pick(t, "maxport", []string{"65535", "12345", "10000"})})
+	}
 	for i := 0; i < n; i++ {
 		var p Pat
 		p.Scheme = pick(t, "scheme", []string{"http", "https", strings.Repeat("s", 64), "a" + strings.Repeat("b", 62) + "c"})
